@@ -112,6 +112,55 @@ def mutations(src: str, lo: int, hi: int):
             yield ln, "drop-call-statement", splice(src, n, "pass")
         elif isinstance(n, ast.Raise):
             yield ln, "drop-raise", splice(src, n, "pass")
+        # second family (semantic edits a maintainer could plausibly make)
+        if isinstance(n, ast.Call) and isinstance(n.func, ast.Attribute) and n.func.attr in ("If", "Elif", "AvoidedIf") and len(n.args) == 1 and not n.keywords:
+            a0 = ast.get_source_segment(src, n.args[0])
+            base = ast.get_source_segment(src, n.func)
+            yield ln, "cond-negated", splice(src, n, f"{base}(~({a0}))")
+            yield ln, "cond-always", splice(src, n, f"{base}(1)")
+        if isinstance(n, ast.Call) and isinstance(n.func, ast.Attribute) and n.func.attr in ("any", "all") and not n.args:
+            other = "all" if n.func.attr == "any" else "any"
+            yield ln, f"{n.func.attr}->{other}", splice(src, n, f"{ast.get_source_segment(src, n.func.value)}.{other}()")
+        if isinstance(n, ast.Call) and any(k.arg == "ready" for k in n.keywords):
+            kws = [k for k in n.keywords if k.arg != "ready"]
+            parts = [ast.get_source_segment(src, a) for a in n.args] + [(f"{k.arg}=" if k.arg else "**") + ast.get_source_segment(src, k.value) for k in kws]
+            yield ln, "ready-dropped", splice(src, n, f"{ast.get_source_segment(src, n.func)}({', '.join(parts)})")
+        if isinstance(n, ast.Call) and isinstance(n.func, ast.Name) and n.func.id == "range" and n.args and not n.keywords:
+            parts = [ast.get_source_segment(src, a) for a in n.args]
+            k = 0 if len(parts) == 1 else 1
+            parts[k] = f"({parts[k]}) - 1"
+            yield ln, "range-short", splice(src, n, f"range({', '.join(parts)})")
+        if isinstance(n, ast.Call) and isinstance(n.func, ast.Attribute) and n.func.attr == "eq" and len(n.args) == 1 and not (isinstance(n.args[0], ast.Constant)):
+            yield ln, "stuck-at-0", splice(src, n, f"{ast.get_source_segment(src, n.func)}(0)")
+        if isinstance(n, (ast.For, ast.comprehension)) and False:
+            pass
+
+
+def loop_var_swaps(src: str, lo: int, hi: int):
+    """index confusion: inside nested loops, a subscript by the inner loop variable is changed to the outer one and back"""
+    tree = ast.parse(src)
+
+    def targets(t):
+        if isinstance(t, ast.Name):
+            return [t.id]
+        if isinstance(t, (ast.Tuple, ast.List)):
+            return [x for e in t.elts for x in targets(e)]
+        return []
+
+    def walk(node, scope):
+        for ch in ast.iter_child_nodes(node):
+            sc = scope
+            if isinstance(ch, ast.For):
+                sc = scope + [v for v in targets(ch.target)]
+            if isinstance(ch, (ast.ListComp, ast.GeneratorExp, ast.SetComp)):
+                sc = scope + [v for g in ch.generators for v in targets(g.target)]
+            if isinstance(ch, ast.Subscript) and isinstance(ch.slice, ast.Name) and isinstance(ch.ctx, ast.Load) and ch.slice.id in sc and lo <= ch.lineno <= hi:
+                for other in sc:
+                    if other != ch.slice.id and other not in ("_",):
+                        yield ch.lineno, f"index {ch.slice.id}->{other}", splice(src, ch, f"{ast.get_source_segment(src, ch.value)}[{other}]")
+            yield from walk(ch, sc)
+
+    yield from walk(tree, [])
 
 
 def job(args):
@@ -149,7 +198,7 @@ def main():
     for rel in args:
         src = open(os.path.join("/repo", rel)).read()
         packs = packs_reading(rel)
-        muts = list(mutations(src, lo, hi))
+        muts = list(mutations(src, lo, hi)) + list(loop_var_swaps(src, lo, hi))
         for k, a in enumerate(sys.argv):
             if a == "--ops":
                 want = sys.argv[k + 1].split(",")
